@@ -4,7 +4,7 @@ import NeoFS.Model.Placement
 
 Signatures are symbolic tokens `kind.arg` (the harness turns them into real secp256r1 signatures and
 checks the token's claim against a real verification): `ok.<pub>` = signature of the op's message by the
-holder of `<pub>`, `mal.<pub>` = the same with `s ↦ n − s`, everything else (`wm` wrong message, `sh`/`lg`
+holder of `<pub>`, `mal.<pub>` = the same with `s ↦ n − s`, `ok2.<pub>` = a second valid signature (other nonce), everything else (`wm` wrong message, `sh`/`lg`
 wrong length, `em` empty, `rnd` random bytes, `z` zeros) verifies for nobody. So the oracle of an op is
 the table "token ↦ the key it verifies for". `bad=` lists the roster keys that are not curve points. -/
 open NeoFS NeoFS.Placement
@@ -13,7 +13,7 @@ abbrev Tok := String
 
 def tokVerifies (pub : Bytes) (t : Tok) : Bool :=
   match t.splitOn "." with
-  | [k, a] => (k == "ok" || k == "mal") && parseHex a == pub
+  | [k, a] => (k == "ok" || k == "mal" || k == "ok2") && parseHex a == pub
   | _ => false
 
 def mkOracle (bad : List Bytes) : Oracle Tok :=
